@@ -120,6 +120,24 @@ impl<C: Config> Engine<C> {
     pub(in crate::engine::computation_graph) async fn acquire_active_input_session_guard(
         &self,
     ) -> (WriteTransaction<C>, ActiveInputSessionGuard) {
+        #[cfg(feature = "verif")]
+        qbice_storage::verif::yield_point("pre:sync:session:before_write_lock").await;
+
+        // The exclusive side of the phase lock must be held *before* the
+        // timestamp is bumped and the session's write batch is allocated:
+        // otherwise a reader that obtains the shared side in between samples
+        // the new timestamp over the old inputs, and a caller that gives up
+        // while waiting for the lock leaks an allocated (never submitted)
+        // write batch, which stalls the write-behind pipeline.
+        let guard = self
+            .computation_graph
+            .database
+            .sync
+            .phase_mutex
+            .clone()
+            .write_owned()
+            .await;
+
         let mut write_buffer = self
             .computation_graph
             .database
@@ -140,18 +158,6 @@ impl<C: Config> Engine<C> {
             .sync
             .timestamp_map
             .insert((), Timestamp(new_timestamp), &mut write_buffer)
-            .await;
-
-        #[cfg(feature = "verif")]
-        qbice_storage::verif::yield_point("pre:sync:session:before_write_lock").await;
-
-        let guard = self
-            .computation_graph
-            .database
-            .sync
-            .phase_mutex
-            .clone()
-            .write_owned()
             .await;
 
         (write_buffer, ActiveInputSessionGuard(Arc::new(guard)))
